@@ -213,10 +213,10 @@ let () =
                     Printf.sprintf "%s:%s:%s[%s]" (string_of_z p.Records.pr_addr) (string_of_z p.Records.pr_full_size)
                       (string_of_z p.Records.pr_cases) (String.concat "," (List.map mr p.Records.pr_methods)))
                     (Records.pics_info im))) in
-           print_string (Printf.sprintf "OK %s %s %s %s %d | %s | %s | %s\n"
+           print_string (Printf.sprintf "OK %s %s %s %s %d %s | %s | %s | %s\n"
                            (nonempty (words im.Generator.im_int)) (nonempty (words im.Generator.im_jit))
                            (nonempty (bytes im.Generator.im_data)) (nonempty (bytes im.Generator.im_ss))
-                           (List.length left)
+                           (List.length left) (if ImageSem.cfg_ok cfg then "1" else "0")
                            (String.concat " " (List.map mrec ms))
                            (String.concat " " (List.map erec im.Generator.im_elements))
                            recs))
